@@ -17,6 +17,25 @@ K_REASON = "C26-reason-phrase-not-validated"
 K_TARGET = "C26-request-target-not-validated"
 K_BODILESS = "C26-body-written-for-bodiless-message"
 K_STREAM10 = "C26-streamed-reply-http10-keepalive"
+K_BLANK = "C26-header-value-blank-line-accepted"
+BREAKS = {"crlf": "\r\n", "lf": "\n", "cr": "\r"}
+FOLLOW = {"sp": " ", "ht": "\t", "letter": "b", "end": ""}
+
+
+def linebreak_values():
+    """header values with 1 and 2 line breaks in every combination of break kind x what follows, plus two adjacent breaks"""
+    vs = []
+    for b1 in BREAKS.values():
+        for f1 in FOLLOW.values():
+            vs.append("a" + b1 + f1 + ("x" if f1 in (" ", "\t") else ""))
+            if f1 == "":
+                continue
+            for b2 in BREAKS.values():
+                for f2k, f2 in FOLLOW.items():
+                    vs.append("a" + b1 + f1 + "x" + b2 + (f2 + "Injected: y" if f2k == "letter" else f2 + ("z" if f2 else "")))
+        for b2 in BREAKS.values():
+            vs.append("a" + b1 + b2 + " x")          # an empty line inside the value
+    return vs
 
 INJ = "a\r\nX-Inj: 1"
 VALS = {"plain": "v1", "empty": "", "cr": "a\rb", "lf": "a\nb", "crlfhdr": INJ, "high": "caféÿ", "long": "x" * 300,
@@ -38,6 +57,13 @@ def bad(s):
 
 
 def key_of(e):
+    import re
+
+    def blank_line_accepted(v):      # two adjacent line breaks, and every run of breaks is followed by SP / HTAB (libevent accepts it)
+        t = v.replace("\r\n", "\0").replace("\r", "\0").replace("\n", "\0")
+        return "\0\0" in t and re.fullmatch(r"(?:[^\0]|\0+[ \t])*", t) is not None
+    if e.get("style") != "error" and any(blank_line_accepted(h[1]) for h in e["hdrs"]):
+        return K_BLANK
     if e["kind"] == "resp":
         needbody = e["code"] not in (204, 304) and e["rmethod"] != "HEAD"
         if bad(e["reason"]):
@@ -95,6 +121,10 @@ def corpus(rng, q):
                     ev.append({"kind": "resp", "rmethod": m, "rver": v, "rconn": c, "style": style, "code": code, "reason": "OK",
                                "hdrs": hdrs, "body": "hello" if style == "reply" and code != 204 else "",
                                "chunks": ["abc", "de"] if style == "chunked" else [], "dct": DCTS[dk]})
+    for v in linebreak_values():
+        ev.append({"kind": "resp", "rmethod": "GET", "rver": [1, 1], "rconn": "", "style": "reply", "code": 200, "reason": "OK",
+                   "hdrs": [["X-First", "1"], ["X-V", v], ["X-Last", "2"]], "body": "hello", "chunks": [], "dct": ["lib"]})
+        ev.append({"kind": "req", "method": "POST", "uri": "/p", "hdrs": [["Host", "h"], ["X-V", v], ["X-Last", "2"]], "body": "pp"})
     # requests
     for m in ("GET", "POST", "PUT", "DELETE", "HEAD"):
         for uk in URIS:
